@@ -92,18 +92,23 @@ pub struct Ledger {
     pub dgrams: BTreeMap<(u64, bool), DgramFlow>,
     pub viol: Vec<Violation>,
     pub cnt: Counters,
+    /// bumped when a pair's 0-RTT data is rejected: flows written afterwards carry different
+    /// bytes than the rejected attempt did
+    pub epoch: BTreeMap<u64, u32>,
 }
 
 impl Ledger {
     pub fn flow(&mut self, pair: u64, writer_client: bool, sid: u64) -> &mut Flow {
+        let ep = self.epoch.get(&pair).copied().unwrap_or(0);
         self.flows.entry((pair, writer_client, sid)).or_insert_with(|| Flow {
-            key: hash64(pair, &[b"flow", &[writer_client as u8], &sid.to_le_bytes()]),
+            key: hash64(pair, &[b"flow", &[writer_client as u8], &sid.to_le_bytes(), &ep.to_le_bytes()]),
             ..Flow::default()
         })
     }
     pub fn dgram(&mut self, pair: u64, writer_client: bool) -> &mut DgramFlow {
+        let ep = self.epoch.get(&pair).copied().unwrap_or(0);
         self.dgrams.entry((pair, writer_client)).or_insert_with(|| DgramFlow {
-            key: hash64(pair, &[b"dgram", &[writer_client as u8]]),
+            key: hash64(pair, &[b"dgram", &[writer_client as u8], &ep.to_le_bytes()]),
             ..DgramFlow::default()
         })
     }
@@ -1034,6 +1039,11 @@ impl App {
 
     pub fn has_pending_plans(&self) -> bool {
         !self.pending_plans.is_empty()
+    }
+
+    /// Stream ids this application has opened and is still working on.
+    pub fn open_send_ids(&self) -> Vec<u64> {
+        self.jobs.keys().copied().collect()
     }
 
     /// After a 0-RTT rejection all early streams are gone; re-queue the plans.
